@@ -49,8 +49,8 @@ pub fn generate(tier: &str, rng: &mut Rng) -> Vec<Spec> {
     let inners = [List(vec![]), List(vec![1]), List(vec![1, 2, 3]), Take(Box::new(Inc(0, 1)), 2), PadE(Box::new(List(vec![4, 5])), 1), Chain(Box::new(List(vec![1])), Box::new(List(vec![2])))];
     for inner in &inners {
         for l in 1..=(if thorough { 7 } else { 6 }) {
-            for ops in super::all_seqs(&["p", "k"], l) { v.push(Spec::new("src").with("e", Peek(Box::new(inner.clone())).show()).with("ops", ops.join(","))); }
-            for ops in super::all_seqs(&["p", "c"], l) { v.push(Spec::new("src").with("e", Cache(Box::new(inner.clone())).show()).with("ops", ops.join(","))); }
+            for ops in crate::util::all_seqs(&["p", "k"], l) { v.push(Spec::new("src").with("e", Peek(Box::new(inner.clone())).show()).with("ops", ops.join(","))); }
+            for ops in crate::util::all_seqs(&["p", "c"], l) { v.push(Spec::new("src").with("e", Cache(Box::new(inner.clone())).show()).with("ops", ops.join(","))); }
         }
     }
     v
